@@ -24,19 +24,23 @@ CHECKS = {
     ),
     "C02": dict(
         technique="TLA+ spec Optimum.tla: TLC exhaustive search over every feasible allocation of small instances (is the real "
-                  "Optimizer's optimum achievable, is optimum + 1 grid unit unreachable) + Ledger trace (OptimumAchieved) of the code's "
-                  "own allocation on small instances and on every people-maximising corpus round",
+                  "Optimizer's optimum achievable, is optimum + 1 grid unit unreachable; feed round: best score) + on every full-size "
+                  "corpus round a witness search whose candidates are certified by TLC against Ledger.tla (Trace_Ledger) + Ledger trace "
+                  "(OptimumAchieved / ScoreAchieved / admissibility clauses) of the code's own allocation",
         text="For a seeded family of small instances (quick 60, thorough 480; 3-6 months; stock, crops, meat, single-cell protein, "
              "retail waste 0/50 %, feed charge, both stock regimes; integer supplies on a grid containing the max-min optimum) the real "
              "Optimizer.optimize_to_humans is run; Optimum.tla's behaviours are exactly the physically feasible allocations that feed "
              "at least a target every month, so TLC decides by reachability that the reported optimum is attainable and that no "
-             "allocation feeds one grid unit more (a violation comes with the better allocation). The code's own allocation must also "
-             "be a Ledger.tla behaviour whose worst month equals the reported optimum - on the small instances and on all ~200 (thorough "
-             "~5000) people-maximising rounds of the corpus.",
+             "allocation feeds one grid unit more (a violation comes with the better allocation); the feed-maximising round's best "
+             "weighted score is found the same way. On every round of the corpus (quick ~370, thorough ~8000, both round kinds) the code's "
+             "own allocation must be a Ledger.tla behaviour (ledger, intake caps, stock-regime policy, pinned consumption, never-rising "
+             "feed and biofuel) whose worst month / weighted total equals the reported optimum, and an independent statement of "
+             "Ledger.tla's admissible set proposes the best allocation: a candidate that Trace_Ledger accepts and that beats the reported "
+             "optimum is a violation, as is a reported optimum whose own allocation TLC rejects while no admissible one reaches it.",
         design_ref="5 (C02), Optimum.tla, Ledger.tla",
-        note="Optimality over full-size instances (120 months) is not enumerated: there C02 rests on achievability, C01 and C12. The "
-             "feed-maximising round's weighted objective is covered only through its constraints (C01) in this round. Instances use a "
-             "requirement large enough for the intake caps not to bind.",
+        note="On full-size rounds completeness is that of the witness search (CBC on the restated problem), soundness is TLC's: a "
+             "candidate counts only if every Ledger.tla clause holds for it. Rounds that require fat / protein are left out of the "
+             "search (no shipped scenario has them). Small instances use a requirement large enough for the intake caps not to bind.",
     ),
     "C03": dict(
         technique="TLA+ spec Rounds.tla: TLC exhaustive protocol model with liveness (MC_Rounds) + one Trace_Rounds trace per "
@@ -44,11 +48,12 @@ CHECKS = {
         text="Rounds.tla is the three-round protocol as a state machine (Start, Round 1/2/3, Skip, Validator, Done/Failed). "
              "Its Done action carries the three policy implications of C03 (starving => essentially no feed and not below "
              "round 1; round 1 reaches T => final >= T - 0.1) and every Round action the per-month demand and shut-off "
-             "bounds on the feed and biofuel actually drawn by the LP. Every corpus run is one trace (quick ~100 runs incl. "
+             "bounds on the feed and biofuel actually drawn by the LP; Start requires the threshold in force to be the configured one. "
+             "Every corpus run is one trace (quick ~100 runs incl. "
              "T = 10, T = 50 and T = 100 presets; thorough ~2600).",
         design_ref="5 (C03), Rounds.tla",
         note="'Essentially none' is 0.1 % of need per month and the grace 0.1 point, as in validate_results.py. Known finding "
-             "G2 is keyed by clause and stock regime.",
+             "G2 is keyed by clause, stock regime and whether the no-feed result is below the threshold.",
     ),
     "C04": dict(
         technique="TLA+ spec Report.tla: TLC exhaustive design check (MC_Report) + one Trace_Report trace per interpreted round "
@@ -56,7 +61,9 @@ CHECKS = {
         text="Report.tla states, month by month, that every reported contribution is the LP allocation of that food in percent "
              "(documented 3-decimal rounding for stored food and crops), that the monthly total is their sum, that "
              "kcals-equivalent = percent x KD / 100, that the CSV equals the returned series, that the crop split adds up, and "
-             "at End that the headline is the minimum monthly total and within 0.01 % of the first-solve optimum.",
+             "(and its new-storage part is never negative), and at End that the headline - as it stands when the whole run is over - is "
+             "the minimum monthly total and within 0.01 % of the first-solve optimum. A solved round whose reporting code raises is a "
+             "violation too.",
         design_ref="5 (C04), Report.tla",
         note="The allocation is normalised by the requirement by the recorder (one constant per trace); every other relation is "
              "evaluated by TLC. Tolerance 1e-7 absolute + 1e-9 relative on percent-sized quantities.",
@@ -67,7 +74,9 @@ CHECKS = {
         text="For every round of every corpus run the monthly slaughter of every species and the milking herds of the herd "
              "simulation that feeds the round are multiplied out in TLC (per-head yields by class, distribution and retail "
              "waste) and compared with the meat and milk series in the round's time_consts - monthly in the human rounds, in "
-             "total in the feed round; plus feed charged >= feed eaten (round 3), grass eaten <= grass, no charge => no feed.",
+             "total in the feed round; plus per-head yields as documented (carcass weights x energy densities), feed charged >= feed eaten "
+             "and the final herd offered at most the feed round's allocation (round 3), eaten <= offered, grass eaten <= grass, no charge "
+             "=> no feed, and every round has a herd simulated in its own run.",
         design_ref="5 (C05), HerdSupply.tla",
         note="Herds are attributed to rounds by the compute_parameters call that built them. Class map restated in the harness.",
     ),
@@ -146,16 +155,21 @@ CHECKS = {
              "label list, shape, numbers (exact rationals), operand snapshots and refusal <=> AssertionError.",
         design_ref="5 (C11), FoodAlgebra.tla",
         note="Universe: 3 unit triples (default, ratio, percent) x total/per-month/each-month x 2-3 number patterns, series "
-             "of 2 months. Outside the domain (named in the spec): non-ratio scalar x ratio series (the code refuses with "
-             "'consider implementing this feature'), two ratios with different suffixes. in_units is covered by C10.",
+             "of 2 months. Named limitation (MayRefuse): non-ratio scalar x ratio series may be refused or answered correctly, nothing "
+             "else. Outside the domain: two ratios with different suffixes. Conversion between the setting-independent mass units is an "
+             "operation of the algebra; the setting-dependent conversions are covered by C10.",
     ),
     "C12": dict(
-        technique="TLA+ spec Mono.tla: relations between the optimum of an instance and of a perturbed copy, both solved by the real "
-                  "Optimizer; pairs validated by TLC",
+        technique="TLA+ specs Optimum.tla / MC_OptimumLaws (the laws decided on the specification itself by exhaustive search, and the "
+                  "code's optimum of every family member compared with the specification's) and Mono.tla (relations between the optimum "
+                  "of an instance and of a perturbed copy, both solved by the real Optimizer; pairs validated by TLC)",
         text="Every single-entry supply increase, waste decrease, charge increase and common scale factor x2 / x0.5 is applied to the "
              "small instance family (24 quick, 200 thorough) and, sampled at three months per series, to the first-round inputs of real "
              "(country, preset) pairs (8 quick, ~90 thorough); both instances are solved by the real Optimizer and the pair must satisfy "
-             "the law of its kind in Mono.tla (461 pairs quick).",
+             "the law of its kind in Mono.tla (~800 pairs quick), including growing-charge chains (each step against the one before, up to "
+             "a charge that must be refused), right-hand sides alone and solves with another run's process-wide settings in force. "
+             "MC_OptimumLaws probes every target of every member of a 12-instance (thorough 60) family and checks the laws on the "
+             "spec's own optima.",
         design_ref="5 (C12), Mono.tla",
         note="Laws are checked on the code, not derived from it; tolerance 1e-5 relative + 1e-5 absolute on the percentage. A perturbed "
              "instance that becomes infeasible is legal only for a charge increase.",
@@ -177,26 +191,30 @@ CHECKS = {
              "transcription error and is examined before it is reported. 'required' fat / protein call sys.exit by design.",
     ),
     "C14": dict(
-        technique="TLA+ spec Process.tla: TLC enumerates run histories (and refutes the variant with a read before SetGlobals); each "
+        technique="TLA+ spec Process.tla: TLC enumerates run histories over four call forms (and refutes four broken variants); each "
                   "history is executed in one process and every run compared bitwise with the same run alone",
-        text="Process.tla models the process-global settings, SetGlobals / Compute / Fail per run and the invariant that a run's "
-             "result depends only on the run. TLC checks it for all histories up to length 3 over five distinguishable run types "
-             "(one failing), shows the property is not vacuous by refuting the model variant in which a read precedes the run's own "
-             "SetGlobals, and emits the histories. Each is executed for real in one fresh process (quick: all 25 ordered pairs + "
-             "singles; thorough: all 125 triples) and each run's complete observation (headline, every monthly series, LP values, "
+        text="Process.tla models what outlives a run - the process-global conversion settings, the caller's option object shared by the "
+             "countries of one by-country call, the herd model's input tables, the yaml front end's settings-level horizon - the steps "
+             "Resolve / SetGlobals / LoadTables / Compute / Fail per run and the invariant that a run's result depends only on the run. "
+             "TLC checks it for all histories up to length 3 over nine run types (one failing, one 'known to fail' correction, one with "
+             "custom herd sizes, one with its own horizon) and four call forms, shows it is not vacuous by refuting four broken variants "
+             "(read before set, correction in place, override into a shared table, horizon rebound), and emits the histories. Each is "
+             "executed for real in one fresh process (quick: length <= 2, 137 histories; thorough: length <= 3) and each run's complete "
+             "observation (headline, every monthly series, LP values, "
              "herd trajectories, hand-offs, validator outcomes) must be bit-for-bit the observation of the run alone.",
         design_ref="5 (C14), Process.tla",
-        note="Bounded history length and five run types; equality is on the JSON of every recorded float.",
+        note="Bounded history length and nine run types; equality is on the JSON of every recorded float plus a digest of every series "
+             "of the result (fat and protein parts included).",
     ),
     "C15": dict(
         technique="TLA+ spec Process.tla (Aggregate part): TLC enumerates selection lists x ratio assignments with their expected "
                   "aggregate; each replayed through the real run_model_no_trade with the per-country optimiser stubbed",
-        text="Selected(list) and the capped population-weighted mean are defined in Process.tla over a 4-country universe; TLC checks "
-             "0 <= fed <= total for every case and emits every selection list of length <= 2 over {x, !x} (73 lists) x 8 (thorough: "
-             "256) ratio assignments over {0, 1/2, 1, 3/2} with the expected selection, fed and total. Each case runs through the real "
+        text="Selected(list) and the capped population-weighted mean are defined in Process.tla over a 6-country universe (incl. a country missing from the world map and one whose map code differs); TLC checks "
+             "0 <= fed <= total for every case and emits every selection list of length <= 2 over {x, !x} (157 lists) x 8 (thorough: "
+             "1024) ratio assignments over {0, 1/2, 1, 3/2} with the expected selection, fed and total. Each case runs through the real "
              "run_model_no_trade: the countries actually run, the result keys, net_pop and net_pop_fed must equal the expectation.",
         design_ref="5 (C15), Process.tla",
-        note="run_optimizer_for_country is stubbed by the harness and the table restricted to four real rows; mixed lists run "
+        note="run_optimizer_for_country is stubbed by the harness and the table restricted to six real rows; mixed lists run "
              "exactly the plain entries.",
     ),
     "C16": dict(
@@ -205,7 +223,7 @@ CHECKS = {
         text="Every (country, preset) of the grid is run for real; the run's event trace must be a complete behaviour of "
              "Rounds.tla: legal order of rounds and skips, solver status 1 at each of the up to nine solves, every built-in "
              "validator call returning normally, Done reached with a finite non-negative percent fed. An exception anywhere is "
-             "the event Failed and names the (country, preset). Quick: 13 country codes x 7 presets + 12 variations; thorough: "
+             "the event Failed and names the (country, preset). Quick: 16 country codes x 7 presets + variations and same-process histories; thorough: "
              "all 164 countries + world x 12 presets + 4 variations each (2640 runs).",
         design_ref="5 (C16), Rounds.tla",
         note="Presets: the six shipped YAML simulations, six manuscript simulations expressed with the dispatcher's option names, "
@@ -235,8 +253,8 @@ CHECKS = {
              "real helpers are run on each and the input/output pair must satisfy the relation (checked by TLC in "
              "Trace_Handoff), as must the hand-off objects captured in every corpus run.",
         design_ref="5 (C18), Handoff.tla",
-        note="Bump inputs are restricted to charged <= demand (an invariant of its only caller). Inputs the re-timing helper "
-             "refuses by its own assertions are counted, not judged.",
+        note="Bump inputs are restricted to charged <= demand (an invariant of its only caller). A helper that refuses (raises on) an input "
+             "of its domain is a violation.",
     ),
 }
 
